@@ -77,6 +77,30 @@ CLAIMED = {
         note=TB + 'Axioms: standard-library real-number axioms as printed. sqrt and the RMSE correlation are taken from the implementation; '
              'PSD of the shipped matrices belongs to C14.',
         technique='Coq proofs over R (bilinear form, permutation of placements) + vm_compute correspondence + oracle'),
+    'C10': dict(
+        text='Machine-checked proof (Coq): (i) finite theorems over the unit and prefix tables REGENERATED from /repo on every run - every '
+             'documented unit evaluates (through the model of tokeniser, parser, prefix lookup and evaluator) to the SI value and seven exponents '
+             'of an independently written SI table; every prefix is its power of ten; every prefix x unit (exhaustive) is 10^k times the unit '
+             'unless shadowed - by vm_compute lifted with forallb_forall; (ii) for all inputs: conversion is the ratio of magnitudes, there-and-back '
+             'is the identity, incompatible conversion raises UnitsError, parsing ends in a tree or the units parse error, evaluation in a value, '
+             'the parse error, or the two named arithmetic guards. A table change that contradicts SI breaks a proof obligation; the search then '
+             'names the unit and confirms it on the implementation. Tie: correspondence of the whole evaluator on names x prefixes (exhaustive), '
+             'generated expression trees, malformed variants, bounded-exhaustive token strings.',
+        design='5 / C10',
+        note=TB + 'Closed under the global context. Guards: ASCII digits (Python \\d/float() on other scripts outside the model), no float '
+             'overflow; non-integer powers of magnitudes supplied as a table; parser fuel adequacy (no Hang) is tested, not proved; '
+             'parse_print/eval_hom of DESIGN 5/C10 not yet proved.',
+        technique='Coq: regenerated-table theorems by vm_compute+forallb_forall, parser/evaluator classification by induction; vm_compute correspondence'),
+    'C11': dict(
+        text='Machine-checked proof (Coq) over the model of the Quantity operators with Python dispatch: different exponent vectors or a non-zero '
+             'bare number make + - < <= > >= raise UnitsError and == false / != true; a bare zero is accepted; on compatible operands each operator '
+             'equals the operation on SI magnitudes (order lemmas in both directions); * and / add and subtract exponents and give a plain number '
+             'exactly when all cancel; exponentiation by a quantity is rejected; for all magnitudes and exponent vectors. Tie: correspondence and '
+             'direct oracle exhaustive over ordered pairs of 16 dimensions x 10 operators with equal/negative/zero magnitudes, bare numbers on both '
+             'sides, powers, neg, abs; arrays by the oracle only.',
+        design='5 / C11',
+        note=TB + 'Closed under the global context. Array semantics (NumPy dispatch) tested, not proved.',
+        technique='Coq case-analysis proofs over Q + vm_compute correspondence + exhaustive dimension-pair oracle'),
 }
 
 PENDING_REASON = 'check not built yet in this round (design in DESIGN.md section 5); not claimed until it runs'
